@@ -27,7 +27,7 @@ def find_field_by_def(cx, mod, clsname, pattern, expected=None):
 
 def check_nullness(cx, rep, funcs_pred, rule='read result may be None at a dereference'):
     nl = Nullness(cx.model)
-    findings = nl.check(only_mods=('core', 'io', 'util', 'workers', 'cmdline', 'cmdline_util'))
+    findings = nl.check(only_mods=tuple(cx.code_mods()))
     n = 0
     for f in findings:
         if f.get('inconclusive'):
@@ -51,12 +51,84 @@ def check_nullness(cx, rep, funcs_pred, rule='read result may be None at a deref
     return sites, opt
 
 
+def check_one_inner_read(cx, rep):
+    """each call of a wrapper's read() asks the wrapped source at most once, never in a loop: the tokenizer asks for one window at
+    a time and hands a token over before asking again (C08: the source is not read further before the hand-over; end of stream
+    is requested once), and a block is what ONE inner read returned (C10)"""
+    n = 0
+    for cname in ('_AudioReadingProxy', '_FixedSizeAudioReader', '_Limiter', '_Recorder', 'AudioReader'):
+        c = cx.cls('util', cname, required=False)
+        if c is None:
+            continue
+        r = cx.model.find_method('util', c, 'read')
+        if r is None:
+            continue
+        try:
+            lv = cx.leaves_dyn(r)
+        except Exception:
+            continue
+        for l in lv:
+            depth, inner, inloop = 0, 0, False
+            for e in l.effects:
+                if e[0] == 'loop-enter':
+                    depth += 1
+                elif e[0] in ('loop-exit',):
+                    depth = max(0, depth - 1)
+                elif e[0] == 'call' and e[1][0] == 'call' and e[1][1][0] == 'attr' and e[1][1][2] == 'read' and e[1][1][1] != ('self',):
+                    recv = e[1][1][1]
+                    if recv[0] == 'attr' and recv[1] == ('self',):
+                        inner += 1
+                        inloop = inloop or depth > 0
+            if inner == 0:
+                continue
+            n += 1
+            rep.ob('a reader wrapper asks the wrapped source at most once per read() call, never in a loop', inner == 1 and not inloop, cx.where(r[0], l.node if l.node is not None else r[2]), '%s.read:inner-reads' % cname,
+                   '%d inner read(s) on a path%s' % (inner, ', inside a loop' if inloop else ''), loop_rule=True, sample=dict(wrapper=cname, inner_reads=inner))
+    rep.floor('wrapper read() paths with an inner read', n, 4)
+
+
+def check_reported_durations(cx, rep):
+    """the durations a reader reports (block_dur / hop_dur getters of the framing readers and of AudioReader) are exactly
+    <its size in samples> / <sampling rate>: split() takes its analysis window from them for reader inputs (C06) and the region
+    times are multiples of them (C05)"""
+    from ..termeval import equivalent
+    from ..facts import role_leaf
+    n = 0
+    for cname in ('_FixedSizeAudioReader', '_OverlapAudioReader', 'AudioReader'):
+        c = cx.cls('util', cname, required=False)
+        if c is None:
+            continue
+        for pname, size_words in (('block_dur', ('block_size',)), ('hop_dur', ('hop_size',))):
+            fn = next((f for f in c.body if isinstance(f, ast.FunctionDef) and f.name == pname and cx.model.is_property(f)), None)
+            if fn is None:
+                continue
+            for l in cx.leaves_of('util', c, fn):
+                if l.outcome != 'return' or l.value is None:
+                    continue
+                v = l.value
+                if v[0] == 'attr' and v[2] in ('block_dur', 'hop_dur', '_block_dur', '_hop_dur'):
+                    continue                                   # another duration (itself checked where it is defined)
+                size = next((x for x in walk(v) if x[0] == 'attr' and any(w in x[2] for w in ('block_size', 'hop_size'))), None)
+                rate = role_leaf(v, 'sampling_rate')
+                if size is None or rate is None:
+                    rep.unknown('%s.%s: the reported duration %s is not built from a size in samples and the sampling rate' % (cname, pname, show(v)[:80]))
+                    continue
+                eq = equivalent(v, ('bin', '/', size, rate))
+                if eq is None:
+                    rep.unknown('%s.%s: %s could not be compared with %s / %s' % (cname, pname, show(v)[:80], show(size), show(rate)))
+                    continue
+                n += 1
+                rep.ob('a reader reports its window / hop duration as exactly <size in samples> / <sampling rate> (no rounding)', eq, cx.where('util', l.node if l.node is not None else fn), '%s.%s:formula' % (cname, pname),
+                       '%s returns %s, expected %s / %s' % (pname, show(v)[:100], show(size), show(rate)), sample=dict(reader=cname, getter=pname, value=show(v)[:80]))
+    rep.floor('reported-duration getters compared', n, 3)
+
+
 def check(repo, rep):
     cx = Ctx(repo)
     rep.cx = cx
     mod = 'util'
     # ---------------------------------------------------------------- R1 nullness in the reader stack
-    sites, opt = check_nullness(cx, rep, lambda f: f['mod'] == 'util')
+    sites, opt = check_nullness(cx, rep, lambda f: cx.in_module(f['mod'], 'util'))
     rep.floor('read() call sites in the package', len(sites), 17)
     rep.floor('Optional-returning read() call sites', len(opt), 13)
 
@@ -383,7 +455,11 @@ def check(repo, rep):
                        'returns %s' % show(l.value)[:120])
         rep.floor('_Limiter.read inner read sites on paths', nread, 1)
     from .c05 import check_roles
-    check_roles(cx, rep, lambda p: p['where'].startswith('auditok/util.py'), floor=5)
+    check_one_inner_read(cx, rep)
+    check_reported_durations(cx, rep)
+    from .c11 import check_buffered_open
+    check_buffered_open(cx, rep)          # the framing reader hands on what the source returns: a short read of the file becomes a short window
+    check_roles(cx, rep, lambda p: cx.in_module(p['where'], 'util'), floor=5)
     rep.explanation = ('Structural rules on the reader stack of auditok/util.py, decided from path-sensitive provenance terms of the current source: nullness of every '
                        'read() result in the stack (E5); block_size = int(block_dur*rate), hop_size = int(hop_dur*rate), overlap cache slicing by hop_size*width*channels, '
                        'first read block_size then hop_size, block = previous tail + new data; TooSmallBlockDuration iff block_size == 0, ValueError for block_dur <= 0 and '
